@@ -7,6 +7,7 @@ R13.3  mock bodies raise: every path of _transform_to_mock that writes a `def` w
 R13.4  naming agreement: client class / module / Protocol / mock class names are derived from the canonical tag by the
        same functions in all six places
 R13.8  no function of visit/endpoint changes its IROperation (or an alias of one of its attributes) in place: the three renderings see one operation
+R13.11 the emitter that renames colliding operation ids in the shared IR runs before every emitter that derives method names from them (the mocks see the final names)
 R13.10 a streamed primary response declared as `2XX` gets its `yield` loop in the client method (Protocol and mock are async generators)   [= R5.18]
 R13.9  the resolver's "this is the model's own module" decision compares the directory / package of the current file, not just its name
 R13.7  an instance-level memo table in the visit/endpoint generators is keyed by every parameter its value is computed from
@@ -228,6 +229,7 @@ def run(repo: Repo, rep: Report, tier: str) -> None:
     from rules.c05 import rule_range_primary_gets_an_arm
 
     rule_range_primary_gets_an_arm(repo, rep, "R13.10")
+    rule_mocks_after_the_renamer(repo, rep, "R13.11")
     # ---------------------------------------------------------------- R13.6 one-line sniffing obliges the signature writer
     # A consumer that looks for the return annotation in ONE rendered line (the line that closes the signature) relies on the
     # signature writer putting the whole annotation on that line; a consumer that joins the collected lines does not.
@@ -567,3 +569,77 @@ def rule_self_import_compares_the_package(repo: Repo, rep, rule: str = "R13.9") 
         rep.violation(rule, sub, f"{fn.fq}|self-import-by-basename",
                       f"`{norm(defs[0])[:70]}`: only the file *name* is compared - a tag module `endpoints/pets.py` is taken for the model module `models/pets.py`: client and Protocol "
                       "are annotated with the quoted name and no import (the client returns raw dicts through `cast`), the mock with the real class", fn.loc(defs[0]))
+
+
+# ------------------------------------------------------------------------------------------------ R13.11 one IR, renamed once, before anybody reads the names
+def rule_mocks_after_the_renamer(repo: Repo, rep, rule: str = "R13.11") -> None:
+    """Colliding operation ids (`getItem` / `get_item`) are told apart by *renaming the operation in the shared IR in place* - and only one
+    emitter does that (the one whose `emit` reaches an assignment to `<op>.operation_id`).  Client, Protocol and mock agree on the method names
+    only if every emitter that derives names from the operations runs after it, in the compare-only branch and in the direct branch alike.
+    Decided on ClientGenerator's generation function: the renamer's `emit` call dominates the `emit` calls of the other operation-reading
+    emitters (not armed for an emitter that renames itself)."""
+    from rules.c10 import generation_function
+    from sa.cfg import CFG as _C
+    from sa.resolve import CallGraph
+
+    gen = generation_function(repo)
+    live = repo.import_closure(["generator.client_generator"])
+    mods = [m for m in live if m.startswith(("pyopenapi_gen.emitters", "pyopenapi_gen.visit"))]
+    cg = CallGraph(repo, mods, by_name=False)
+
+    def renames(fq: str) -> bool:
+        for f in cg.reachable([fq]):
+            fn = cg.funcs.get(f)
+            node = fn.node if fn is not None else None
+            if node is None:
+                continue
+            for st in ast.walk(node):
+                if isinstance(st, (ast.Assign, ast.AugAssign)):
+                    tg = st.targets if isinstance(st, ast.Assign) else [st.target]
+                    if any(isinstance(t, ast.Attribute) and t.attr == "operation_id" for t in tg):
+                        return True
+        return False
+
+    emitters = {}
+    for mn in mods:
+        m = repo.modules[mn]
+        for cn, c in m.classes.items():
+            if cn.endswith("Emitter") and "emit" in c.methods:
+                emitters[cn] = c.methods["emit"]
+    reads_ops = {cn for cn, e in emitters.items() if any(isinstance(x, ast.Attribute) and x.attr == "operation_id" for f in cg.reachable([e.fq])
+                                                             for x in (ast.walk(cg.funcs[f].node) if f in cg.funcs else []))}
+    renamers = {cn for cn, e in emitters.items() if renames(e.fq)}
+    rep.count(f"{rule}:emitters", {"renamers": sorted(renamers), "read_operations": sorted(reads_ops)})
+    if len(renamers) != 1:
+        rep.ok(rule, f"{gen.module.relpath}:{gen.qualname} order of the emitters", f"{len(renamers)} emitters rename operation ids ({sorted(renamers)}): the order rule is armed for exactly one renamer",
+               gen.loc())
+        return
+    ren = next(iter(renamers))
+    L = Locals(gen.node)
+    cfg = _C(gen.node)
+    dom = cfg.dominators()
+
+    def emit_nodes(cls_name: str):
+        out = []
+        for n in cfg.nodes:
+            if n.kind != "stmt" or n.ast is None or n.copy:
+                continue
+            for c in calls_in(n.ast):
+                if isinstance(c.func, ast.Attribute) and c.func.attr == "emit":
+                    recv = c.func.value
+                    cands = [recv] if not isinstance(recv, ast.Name) else [v for _, v, _ in L.defs.get(recv.id, []) if v is not None]
+                    if cands and all(isinstance(v, ast.Call) and (dotted(v.func) or "").split(".")[-1] == cls_name for v in cands):
+                        out.append(n)
+        return out
+
+    rn = emit_nodes(ren)
+    rep.require(len(rn) >= 2, f"{rule}: {len(rn)} `{ren}(...).emit(...)` call(s) found in the generation function (one per branch expected)")
+    for other in sorted(reads_ops - renamers):
+        for k_, n in enumerate(sorted(emit_nodes(other), key=lambda x: x.lineno), 1):
+            sub = f"{gen.module.relpath}:{gen.qualname} `{other}.emit` call #{k_}"
+            if any(r.id in dom[n.id] for r in rn):
+                rep.ok(rule, sub, f"runs after `{ren}.emit`, which gives colliding operations their final ids", gen.loc(n.ast))
+            else:
+                rep.violation(rule, sub, f"{gen.fq}|emitter-before-renamer|{other}",
+                              f"`{other}.emit` renders method names from the operations before `{ren}.emit` has renamed the colliding ones in the shared IR: two operations whose ids "
+                              "sanitise to one name give one method here and two (`x`, `x_2`) in the modules rendered afterwards - client, Protocol and mock disagree", gen.loc(n.ast))
